@@ -3,6 +3,8 @@
 B1  no trapping arithmetic on numbers read from the file unless a dominating guard range-checked them
 B2  no unwrap / expect / panic macro in the importer
 B3  index sites of the importer are guarded (constant index vs. length test, variable index vs. range test)
+B4  every imported gate writes its output wire into the translation table the later gates read, and takes a fresh wire number
+    (the one structural clause of "import reproduces the circuit" that is visible in the shape of the loop)
 """
 from .. import mir
 from ..core import AnchorMissing, Finding, RuleResult
@@ -17,7 +19,9 @@ LEVEL_TEXT = (
     "numbers (traps in the debug profile) is a violation; the importer contains no unwrap/expect/panic!; constant and "
     "variable index sites must be dominated by a length / range test, element indices by a find/any/all test over the "
     "vector. Index expressions the idioms cannot classify (computed differences, ranges with a parsed bound) and the "
-    "two allocations sized by header numbers are listed in the evidence as not decided. Not decided: round-trip "
+    "two allocations sized by header numbers are listed in the evidence as not decided. (B4) On every path of the gate loop that "
+    "pushes a gate, the gate's output wire is written into the table from which later gates translate their operands, and the wire "
+    "counter is incremented. Not decided: round-trip "
     "equivalence and well-formedness of the exported text (computed wire numbers for all circuits: value level).")
 LEVEL_NOTE = ("Trusted: rustc MIR in the debug profile (overflow checks are Assert terminators); a guard is accepted when it compares "
               "the same parsed values - that the compared bound is the right one is read from the code, not proved.")
@@ -266,5 +270,86 @@ def rule_b3(ctx):
     return res
 
 
+def rule_b4(ctx):
+    """Wire translation of the importer: every gate line defines its wire in the table that later lines read."""
+    res = RuleResult("B4", "every imported gate records its output wire in the translation table and takes a fresh wire number")
+    root, _ = importer_bodies(ctx)
+    body = ctx.body(root)
+    pushes = []
+    for b, t in body.calls():
+        if mir.last_seg(mir.callee(t) or "") == "push" and len(t["args"]) == 2 and "circuit::Gate" in t["args"][1].get("place", {}).get("ty", ""):
+            pushes.append((b, t))
+    if len(pushes) != 1:
+        raise AnchorMissing("B4: expected one gates.push(gate) in the importer, found %d" % len(pushes))
+    pb, pt = pushes[0]
+    # the table: receiver of the index reads that feed the operands of the pushed gates
+    tables = set()
+    for (r, p) in body.trace_operand(pt["args"][1]):
+        if r[0] != "agg":
+            continue
+        st = body.blocks[r[1]]["stmts"][r[2]]
+        for o in st["rv"]["ops"]:
+            for (r2, p2) in body.trace_operand(o):
+                if p2 and p2[-1].startswith("["):
+                    tables.add((r2, tuple(p2[:-1])))
+                elif r2[0] == "call" and mir.last_seg(r2[2] or "") == "index":
+                    for (r3, p3) in body.trace_operand(body.term(r2[1])["args"][0]):
+                        tables.add((r3, tuple(p3)))
+    if len(tables) != 1:
+        raise AnchorMissing("B4: the operands of imported gates are not read from one translation table (%s)" % sorted(tables))
+    table = next(iter(tables))
+    loops = [lp for lp in body.loops() if pb in lp["body"]]
+    if not loops:
+        raise AnchorMissing("B4: gates are not pushed inside a loop over the lines")
+    lp = min(loops, key=lambda l: len(l["body"]))
+    writes = [(b, t) for b, t in body.calls() if b in lp["body"] and mir.last_seg(mir.callee(t) or "") == "index_mut"
+              and any((r, tuple(p)) == table for (r, p) in body.trace_operand(t["args"][0]))]
+    if not writes:
+        res.bad(Finding("B4", root, "gates never define their output wire", "no write into the wire translation table inside the gate loop: later gates read stale entries", pt["sp"]))
+        return res
+
+    def inloop(b):
+        return [x for x in body.succs(b) if x in lp["body"] and not body.blocks[x]["cleanup"]]
+    w = body.path(lp["header"], [pb], blocked={b for b, _ in writes}, succ=inloop)
+    if w:
+        res.bad(Finding("B4", root, "a gate can be pushed without defining its output wire",
+                        "a path through the gate loop reaches gates.push without writing the translation table (blocks %s): a later gate reading this wire is connected to whatever the entry held before" % w,
+                        body.term(writes[0][0])["sp"]))
+    else:
+        res.ok({"verdict": "the write wires_map[output_wire] lies on every path of the gate loop that pushes a gate", "writes": len(writes)})
+    # the stored number is a counter that is bumped on every path that pushes a gate
+    counters = set()
+    for b, t in writes:
+        d = t["dest"]["l"]
+        for x in lp["body"]:
+            for st in body.blocks[x]["stmts"]:
+                if st["k"] == "assign" and st["place"]["l"] == d and any(e["k"] == "deref" for e in st["place"]["p"]) and st["rv"]["k"] == "use" and st["rv"]["op"]["k"] in ("copy", "move"):
+                    c = st["rv"]["op"]["place"]["l"]
+                    for _ in range(4):
+                        ds = [d_ for d_ in body.defs().get(c, []) if d_[0] == "assign"]
+                        if len(body.defs().get(c, [])) == 1 and ds and ds[0][3]["rv"]["k"] == "use" and ds[0][3]["rv"]["op"]["k"] in ("copy", "move") and not ds[0][3]["rv"]["op"]["place"]["p"]:
+                            c = ds[0][3]["rv"]["op"]["place"]["l"]
+                        else:
+                            break
+                    counters.add(c)
+    if len(counters) != 1:
+        res.bad(Finding("B4", root, "translation table entries are not one running counter", "the values written into the translation table come from %d different locals" % len(counters), body.term(writes[0][0])["sp"]))
+        return res
+    cnt = next(iter(counters))
+    bumps = set()
+    for x in lp["body"]:
+        for st in body.blocks[x]["stmts"]:
+            if st["k"] == "assign" and st["rv"]["k"] == "binop" and st["rv"]["op"] in ("AddWithOverflow", "Add", "AddUnchecked"):
+                ops = (st["rv"]["l"], st["rv"]["r"])
+                if any(o["k"] in ("copy", "move") and o["place"]["l"] == cnt and not o["place"]["p"] for o in ops) and any(o["k"] == "const" and o.get("val") == 1 for o in ops):
+                    bumps.add(x)
+    w = body.path(lp["header"], [pb], blocked=bumps, succ=inloop) if bumps else [lp["header"]]
+    if w:
+        res.bad(Finding("B4", root, "a gate can be pushed without taking a fresh wire number", "the wire counter is not incremented on every path that pushes a gate: two gates share one wire number", pt["sp"]))
+    else:
+        res.ok({"verdict": "the wire counter is incremented on every path that pushes a gate"})
+    return res
+
+
 def run(ctx):
-    return ctx.run_rules([rule_b1, rule_b2, rule_b3])
+    return ctx.run_rules([rule_b1, rule_b2, rule_b3, rule_b4])
